@@ -27,7 +27,9 @@ REQUIRED = ["field_" + n for n in rc.FIELDS] + ["cap17_redecode_after_caller_edi
 
 def mk(ctx, mb, df=None):
     rng = ctx.rng
-    f = bits.commb_frame(df or rng.choice((20, 21)), rng.fill(27), mb, rng.fill(24))
+    # "random content of the header": mostly a Comm-B reply (DF20/21), one time in six any five format bits - the field
+    # decoders read the MB bits of the 28-digit string they are given and nothing in front of them
+    f = bits.commb_frame(df or (rng.choice((20, 21)) if rng.random() < 0.84 else rng.randrange(32)), rng.fill(27), mb, rng.fill(24))
     hx = bits.anypi(rng, "%028X" % f)   # header / AP of the previous reply now and then: the field decoders read MB only
     return (hx.lower() if rng.random() < 0.1 else hx), int(hx, 16)
 
@@ -126,7 +128,7 @@ def m_field(ctx, case):
             hx, f = mk(ctx, mb)
             base = call(fn, hx)
             outside_mb = [b for b in range(1, 57) if b not in own]
-            flips = [32 + b for b in outside_mb] + list(range(6, 33)) + list(range(89, 113))
+            flips = [32 + b for b in outside_mb] + list(range(1, 33)) + list(range(89, 113))
             for fb in (flips if case.get("all_flips") else rng.sample(flips, 12)):
                 r = call(fn, "%028X" % (f ^ (1 << (112 - fb))))
                 ctx.ev()
